@@ -131,6 +131,13 @@ var (
 	vLimit    = 20000
 )
 
+var (
+	vNestAt    = -1 // run a nested parse when the outer parse performs its vNestAt-th reduction
+	vNestIn    []int
+	vNestDepth int
+	vNestRes   *vRes
+)
+
 func rec(n int) {
 	if vParallel {
 		return
@@ -139,6 +146,22 @@ func rec(n int) {
 	vSteps++
 	if vSteps > vLimit {
 		panic("vlimit")
+	}
+	if vNestDepth == 0 && vNestAt > 0 && vSteps == vNestAt {
+		vNestDepth++
+		saveT, saveS := vTrace, vSteps
+		vTrace, vSteps = nil, 0
+		if IsTrace {
+			fmt.Println("@@NEST-BEGIN")
+		}
+		r := vNested(vNestIn)
+		if IsTrace {
+			fmt.Println("@@NEST-END")
+		}
+		r.Trace = append([]int{}, vTrace...)
+		vNestRes = &r
+		vTrace, vSteps = saveT, saveS
+		vNestDepth--
 	}
 }
 
@@ -196,6 +219,8 @@ type vOp struct {
 	In       []int   ` + "`json:\"in\"`" + `
 	Init     bool    ` + "`json:\"init\"`" + `
 	Trace    bool    ` + "`json:\"trace\"`" + `
+	NestAt   int     ` + "`json:\"nest_at\"`" + `
+	NestIn   []int   ` + "`json:\"nest_in\"`" + `
 	Parses   []vOp   ` + "`json:\"parses\"`" + `
 	Schedule []int   ` + "`json:\"schedule\"`" + `
 }
@@ -207,6 +232,7 @@ type vRes struct {
 	Val     map[string]interface{} ` + "`json:\"val,omitempty\"`" + `
 	Fetched int                    ` + "`json:\"fetched\"`" + `
 	Out     string                 ` + "`json:\"out,omitempty\"`" + `
+	Nested  *vRes                  ` + "`json:\"nested,omitempty\"`" + `
 }
 
 func vInput(id int, in []int) string {
@@ -283,8 +309,21 @@ func main() {
 `
 
 const goDriverGlobal = `
+// vNested: a whole parse started from inside an action of the running parse,
+// bracketed by PushContex/PopContex as the template provides for.
+func vNested(in []int) vRes {
+	PushContex()
+	defer PopContex()
+	return vRun1(200, func() *ValType {
+		ParserInit()
+		return Parser(vInput(200, in))
+	})
+}
+
 func vParse(op vOp) vRes {
 	vTrace, vSteps = nil, 0
+	vNestAt, vNestIn, vNestRes = op.NestAt, op.NestIn, nil
+	defer func() { vNestAt = -1 }()
 	var res vRes
 	res.Out = vCapture(op.Trace, func() {
 		IsTrace = op.Trace
@@ -299,6 +338,7 @@ func vParse(op vOp) vRes {
 	out := res.Out
 	res.Trace = append([]int{}, vTrace...)
 	res.Out = out
+	res.Nested = vNestRes
 	return res
 }
 
@@ -377,8 +417,18 @@ func vGetCtx(id int, fresh bool) *Context {
 	return c
 }
 
+// vNested: a whole parse on another context, started from inside an action.
+func vNested(in []int) vRes {
+	c := MakeParserContext()
+	return vRun1(200, func() *ValType {
+		return c.Parser(vInput(200, in))
+	})
+}
+
 func vParse(op vOp) vRes {
 	vTrace, vSteps = nil, 0
+	vNestAt, vNestIn, vNestRes = op.NestAt, op.NestIn, nil
+	defer func() { vNestAt = -1 }()
 	var res vRes
 	out := vCapture(op.Trace, func() {
 		IsTrace = op.Trace
@@ -393,6 +443,7 @@ func vParse(op vOp) vRes {
 	})
 	res.Trace = append([]int{}, vTrace...)
 	res.Out = out
+	res.Nested = vNestRes
 	return res
 }
 
